@@ -41,27 +41,30 @@ def log(*a):
 # --------------------------------------------------------------------------
 # band encoding
 # --------------------------------------------------------------------------
+# anchors (concrete, model, half-width): 2^64/k for the k whose remainder 2^64 mod k equals 2^30 mod k, so that
+# multiplying a value near 2^64/k by k (or a divisor of k) lands in a band again with the same offset structure
+_ANCH = [(0, 0, BAND)]
+for _k, _hw in ((16, 1 << 12), (12, 1 << 12), (8, 1 << 12), (6, 1 << 12), (4, 1 << 14), (3, 1 << 12), (2, BAND), (1, BAND)):
+    assert (U64 % _k) == (WORD % _k)
+    _ANCH.append((U64 // _k, WORD // _k, _hw))
+
+
 def enc(v):
     """concrete 64-bit number -> model number (< 2*WORD)."""
     if v < 0:
         raise ToolError("negative number in trace: %r" % v)
-    if v < BAND:
-        return v
-    mid = 1 << 63
-    if mid - BAND <= v < mid + BAND:
-        return WORD // 2 + (v - mid)
-    if U64 - BAND <= v <= U64 + BAND:
-        return WORD + (v - U64)
+    for (c, m, hw) in _ANCH:
+        if c - hw <= v < c + hw or (c == U64 and v <= c + hw and v >= c - hw):
+            return m + (v - c)
     raise ToolError("number outside the bands: %d" % v)
 
 
 def dec(m):
     """model number -> concrete number."""
-    if m < BAND:
-        return m
-    if WORD // 2 - BAND <= m < WORD // 2 + BAND:
-        return (1 << 63) + (m - WORD // 2)
-    if WORD - BAND <= m:
+    for (c, mm, hw) in _ANCH:
+        if mm - hw <= m < mm + hw:
+            return c + (m - mm)
+    if m >= WORD - BAND:
         return U64 + (m - WORD)
     raise ToolError("model number outside the bands: %d" % m)
 
@@ -117,33 +120,89 @@ def build_harness(pkg="vmh", release=False):
     return path
 
 
-def run_harness(module, program, out_path, pkg="vmh", release=False, timeout=900, extra_env=None):
-    """program: list of dict lines (or a path). Returns the list of events."""
-    exe = build_harness(pkg, release)
-    os.makedirs(WORK, exist_ok=True)
-    if isinstance(program, str):
-        prog_path = program
-    else:
-        prog_path = out_path + ".prog"
-        with open(prog_path, "w") as f:
-            for line in program:
-                f.write(json.dumps(line, separators=(",", ":")) + "\n")
-    env = dict(os.environ)
-    if extra_env:
-        env.update(extra_env)
+class _Crash(Exception):
+    pass
+
+
+def _run_once(exe, module, prog_path, out_path, timeout, env):
     try:
         p = subprocess.run([exe, module, prog_path, out_path], stdout=subprocess.PIPE, stderr=subprocess.PIPE,
                            text=True, timeout=timeout, env=env)
     except subprocess.TimeoutExpired:
         raise ToolError("harness timed out on %s" % prog_path)
-    if p.returncode != 0:
-        raise ToolError("harness failed rc=%d: %s" % (p.returncode, p.stderr[-2000:]))
     events = []
-    with open(out_path) as f:
-        for line in f:
-            if line.strip():
-                events.append(json.loads(line))
-    return events
+    if os.path.exists(out_path):
+        with open(out_path) as f:
+            for line in f:
+                line = line.strip()
+                if line:
+                    try:
+                        events.append(json.loads(line))
+                    except ValueError:
+                        break          # a line cut short by a crash
+    return p.returncode, p.stderr, events
+
+
+def run_harness(module, program, out_path, pkg="vmh", release=False, timeout=900, extra_env=None, ctx=None, one_event_per_line=True):
+    """program: list of dict lines. Returns the list of events.
+    If the harness process itself dies (a fault or abort inside the code under test that catch_unwind cannot
+    contain), that is DATA when a ctx is given: the operation that was executing is reported as a mismatch
+    (a crash is a violation of whatever property is being checked) and execution resumes with the next history."""
+    exe = build_harness(pkg, release)
+    os.makedirs(WORK, exist_ok=True)
+    env = dict(os.environ)
+    if extra_env:
+        env.update(extra_env)
+    if isinstance(program, str):
+        rc, err, events = _run_once(exe, module, program, out_path, timeout, env)
+        if rc != 0:
+            raise ToolError("harness failed rc=%d: %s" % (rc, err[-2000:]))
+        return events
+    all_events = []
+    start = 0
+    crashes = 0
+    while start < len(program):
+        prog_path = out_path + ".prog"
+        with open(prog_path, "w") as f:
+            for line in program[start:]:
+                f.write(json.dumps(line, separators=(",", ":")) + "\n")
+        rc, err, events = _run_once(exe, module, prog_path, out_path, timeout, env)
+        if rc == 0:
+            all_events += events
+            break
+        if (rc > 0 and rc != 101) or ctx is None or not one_event_per_line:
+            raise ToolError("harness failed rc=%d: %s" % (rc, err[-2000:]))
+        if rc == 101 and "harness:" in err:
+            raise ToolError("harness failed rc=%d: %s" % (rc, err[-2000:]))
+        # killed by a signal (or aborted by a panic that escaped: rc 101) while executing program line start + len(events)
+        rc = -rc if rc < 0 else 6
+        crashes += 1
+        bad = start + len(events)
+        if bad >= len(program):
+            raise ToolError("harness died after its last operation (rc=%d)" % rc)
+        j = bad
+        while j > start and program[j].get("op") != "init":
+            j -= 1
+        hist = program[j:bad + 1]
+        log("[harness] process died (signal %d) in %s %s" % (rc, program[bad].get("op"), json.dumps(program[bad].get("a"))[:200]))
+        ctx.mismatch({"module": module, "tag": "crash", "op": program[bad].get("op"), "a": program[bad].get("a"),
+                      "r": {"k": "signal", "sig": rc, "msg": "the process running the library died (signal %d)" % rc}},
+                     {"module": module, "pkg": pkg, "program": hist, "expected": "the call returns (a value or an error)",
+                      "observed": "process killed by signal %d" % rc})
+        # keep the events of complete histories, drop the crashed history, resume with the next history
+        has_init = any(l.get("op") == "init" for l in program)
+        if has_init:
+            all_events += events[:max(j - start, 0)]
+            nxt = bad + 1
+            while nxt < len(program) and program[nxt].get("op") != "init":
+                nxt += 1
+        else:
+            all_events += events
+            nxt = bad + 1
+        start = nxt
+        if crashes > 200:
+            raise ToolError("the harness died more than 200 times")
+    return all_events
 
 
 # --------------------------------------------------------------------------
